@@ -88,7 +88,7 @@ def gen_config(rng, grid, kind):
         axes = rng.sample(range(4), rng.choice([1, 1, 2]))
         queries.append([rng.randrange(nranks), [[a, rng.randrange(N[a])] for a in axes]])
     return {'N': N, 'grid': list(grid), 'eta_int': [r, q, z, v], 'units': units, 'kind': kind,
-            'complex_f': rng.random() < 0.5, 'fseed': rng.randrange(1 << 30), 'saveStep': save, 'dt': dt, 't0': t0,
+            'shift': rng.choice([0, 10, -10]), 'complex_f': rng.random() < 0.5, 'fseed': rng.randrange(1 << 30), 'saveStep': save, 'dt': dt, 't0': t0,
             'nsteps': nsteps, 'queries': queries, 'sched_seed': rng.randrange(1 << 30)}
 
 
@@ -104,7 +104,7 @@ def make_fields(c):
             pre = np.ones(N[:3], dtype=np.int64)
             pim = np.zeros(N[:3], dtype=np.int64)
         else:
-            fre = g.integers(-9, 10, size=N)
+            fre = g.integers(-9, 10, size=N) + c.get('shift', 0)    # shift +-10: all values of one sign
             fim = g.integers(-9, 10, size=N) if (c['complex_f'] and k == 0) else np.zeros(N, dtype=np.int64)
             pre = g.integers(-9, 10, size=N[:3])
             pim = g.integers(-9, 10, size=N[:3])
@@ -423,7 +423,7 @@ def compare(chk, c, res, answers, tags, fields):
     """returns list of (key, what, no_input)"""
     bad = []
     nranks = c['grid'][0] * c['grid'][1]
-    small = {k: c[k] for k in ('N', 'grid', 'eta_int', 'units', 'kind', 'complex_f', 'saveStep', 'dt', 't0', 'nsteps')}
+    small = {k: c.get(k) for k in ('N', 'grid', 'eta_int', 'units', 'kind', 'shift', 'complex_f', 'saveStep', 'dt', 't0', 'nsteps')}
 
     def v(key, what, no_input=False):
         bad.append((key, '%s  [config %s]' % (what, json.dumps(small)), no_input))
@@ -616,7 +616,8 @@ def stratum_of(c):
     N = c['N']
     div = 'divisible' if (N[0] % n1 == 0 and N[2] % n2 == 0) else 'nondivisible'
     wrap = 'wrap' if c['nsteps'] > c['saveStep'] else 'nowrap'
-    return '%s/%s/%s/%s/%s' % (c['kind'], shape, div, 'complex' if c['complex_f'] else 'real', wrap)
+    sign = {0: 'mixed-sign', 10: 'positive', -10: 'negative'}[c.get('shift', 0)] if c['kind'] != 'ones' else 'one'
+    return '%s/%s/%s/%s/%s/%s' % (c['kind'], shape, div, 'complex' if c['complex_f'] else 'real', wrap, sign)
 
 
 def gen_cases(chk):
@@ -690,7 +691,7 @@ def evaluate(chk, cases, record=True):
         st = stratum_of(c)
         if record:
             chk.count(json.dumps(c, sort_keys=True), nontrivial=(c['grid'] != [1, 1]), stratum=st,
-                      sample={k: c[k] for k in ('N', 'grid', 'eta_int', 'units', 'kind', 'complex_f', 'saveStep', 'dt', 't0', 'nsteps', 'queries')})
+                      sample={k: c[k] for k in ('N', 'grid', 'eta_int', 'units', 'kind', 'shift', 'complex_f', 'saveStep', 'dt', 't0', 'nsteps', 'queries')})
         bad = compare(chk, c, r, answers[o:o + n], tags, fields)
         seen = set()
         for key, what, no_input in bad:
@@ -736,7 +737,7 @@ def run():
         proof,
         rule='seeded configurations: 4-D extents 2..7 (bumped off multiples of the process counts), every process grid '
              '(1,1),(1,n),(n,1),(2,2),(2,3),(3,2),(2,4),(4,2) up to 8 ranks, non-uniform integer r/v grids times 2^u, real and complex '
-             'small-integer fields, f=1, uniform grids, a stratum with ranks owning no radial point; per configuration: l2/l1/nParticles/'
+             'small-integer fields (mixed sign, all positive, all negative), f=1, uniform grids, a stratum with ranks owning no radial point; per configuration: l2/l1/nParticles/'
              'KineticEnergy in the 3 layouts of f, l2 in the 4 layouts of phi (2 of them replicated), 4 getMin/getMax queries, a collector run '
              'of 1..5 steps with saveStep 1..4 (with and without wrap-around); non-trivial = more than one rank; distinct = distinct configuration',
         extra={'model_requests': nlines, 'coq_vm_compute_crosschecked': len(terms), 'float_time_cases': nft,
